@@ -243,7 +243,8 @@ def run(ctx):
     ctx.floor("R-ELFNULL", "dereferences of libelf results", n, 25)
     for fn, why in T["not_nullable"].items():
         ctx.note("R-ELFNULL: %s not in the producer table: %s" % (fn, why))
-    k = check_elfbound(ctx, P, funcs, T)
+    from rules import elfbound_rule
+    k = elfbound_rule.check(ctx, P, funcs, T)
     ctx.floor("R-ELFBOUND", "reads through section-buffer pointers", k, 10)
     e = check_entsize(ctx, P, funcs)
     ctx.floor("R-ELFBOUND/ENTSIZE", "divisions by sh_entsize", e, 2)
